@@ -34,6 +34,16 @@ func cmdReplay(args []string) {
 	p := getProp(rf.Property)
 	st := core.NewStats()
 	st.SampleWant = 0
+	if rf.Class == "hang" {
+		// the recorded violation is that the run never returns: give it three
+		// times the per-run budget, as the batch did
+		go func() {
+			time.Sleep(3 * hooks.PerRunTimeout)
+			fmt.Printf("REPRODUCED property=%s class=hang: the run has not returned after %v\n", rf.Property, 3*hooks.PerRunTimeout)
+			fmt.Printf("VIOLATION property=%s replay=%s\n", rf.Property, *file)
+			os.Exit(1)
+		}()
+	}
 	v, herr := executeRun(p, tape.Replay(rf.Tape), st)
 	if herr != "" {
 		fatal2("replay: %s", herr)
